@@ -251,6 +251,10 @@ def all_ops(cfg):
 
 def run_hist(cfg, hist):
     w = World(cfg)
+    for op in cfg.get('init', ()):
+        # exploration may start from a non-initial state (a chain that is
+        # already built and populated), which puts deeper re-basings in reach
+        assert w.apply(tuple(op)), op
     for op in hist:
         if not w.apply(tuple(op)):
             return w, 'disabled'
@@ -294,6 +298,11 @@ def replay(case):
     return dict(violation=v, history=case['hist']) if v and v != 'disabled' else None
 
 
+# r0 -> r1 -> r2 with r3 detached, r2 and r3 populated, every cache warm
+CHAIN4 = (('bases', 'r0', ('r1',)), ('bases', 'r1', ('r2',)), ('reg', 'r2'), ('reg', 'r3'),
+          ('sub', 'r2'), ('sub', 'r3'), ('look', 'r0'), ('look', 'r1'))
+
+
 def run(ctx):
     from ..e1 import bfs
     from ..runner import finish
@@ -307,14 +316,17 @@ def run(ctx):
                 # four registries: the smallest DAG in which a registry *below*
                 # the re-based one has two bases above it to be re-ordered
                 plans.append((dict(kind=kind, nreg=4, maxb=2), 3))
+                plans.append((dict(kind=kind, nreg=4, maxb=1, init=CHAIN4), 3))
         else:
             plans.append((dict(kind=kind, nreg=3, maxb=2), 30))
             plans.append((dict(kind=kind, nreg=4, maxb=2), 4))
+            plans.append((dict(kind=kind, nreg=4, maxb=2, init=CHAIN4), 4))
             plans.append((dict(kind=kind, nreg=3, maxb=2, pair=True), 5))
     for impl in ('c', 'py'):
         for cfg, depth in plans:
             depth = int(ctx.opts.get('depth', depth))
-            label = '%s/%dreg%s' % (cfg['kind'], cfg['nreg'], '+pair' if cfg.get('pair') else '')
+            label = '%s/%dreg%s%s' % (cfg['kind'], cfg['nreg'], '+pair' if cfg.get('pair') else '',
+                                      '+from-chain' if cfg.get('init') else '')
             r = bfs(ctx, impl, 'expand', cfg, depth, label=label,
                     max_states=int(ctx.opts.get('max_states', 400000)))
             ctx.add(states=r['states'], transitions=r['transitions'])
